@@ -377,8 +377,14 @@ def exec_while(ex, node, env):
     ctx.cur_line = line
     check_invs(ex, spec, env, dict(spec.ghost), 'loop-preserve')
     if v0 is not None:
-      v1 = spec.variant(inv_ns(ex, env, dict(spec.ghost)))
-      ctx.oblige(lex_decreases(v0, v1), 'variant decreases', 'variant',
+      ns1 = inv_ns(ex, env, dict(spec.ghost))
+      v1 = spec.variant(ns1)
+      goal = lex_decreases(v0, v1)
+      if spec.variant_lemmas is not None:
+        hyps = [h for _, h in spec.variant_lemmas(ns1, v0, v1)]
+        goal = z3.Implies(z3.And(hyps), goal)
+      ctx.oblige(goal, 'termination: the loop variant decreases '
+                 'lexicographically and is bounded below', 'variant',
                  ('C09',))
     raise PathEnd('loop back edge')
   c = ex.eval(node.test, env)
